@@ -65,7 +65,7 @@ def run(ctx, spec):
 PROPS = {"C04": dict(
     lean_modules=["Vore.Props.C04"],
     theorems=["Vore.C04_window", "Vore.C04_clause_window", "Vore.C04_window_amount", "Vore.C04_window_replace",
-              "Vore.C04_queue_step", "Vore.C04_queue_last_n", "Vore.C04_queue_limit",
+              "Vore.C04_queue_step", "Vore.C04_queue_last_n", "Vore.C04_queue_limit", "Vore.C04_queue_fifo",
               "Vore.C04_scan_uses_queue_as_written", "Vore.C04_window_queue"],
     run=run,
     assumptions=["the clause -> (all, skip, take, last) mapping of parse_amount is checked per case against the real parser's syntax tree"],
